@@ -263,7 +263,7 @@ def genIgoRaw (mag : Rat → Rat → Rat) (nDims : Nat) (pixels : Px) (dbl : Boo
     if dbl then
       let featchnls1 := (4)
       (((genGradient false (Arg.arr pixels)).bind Arg.arrE)).bind fun grad0 =>
-        let gradorient0 := (angleOf (List.take nimgchnls0 grad0) (List.drop nimgchnls0 grad0))
+        let gradorient0 := (angleC (Cplx.mk (List.take nimgchnls0 grad0) (List.drop nimgchnls0 grad0)))
         let igopixels0 := (List.replicate (nimgchnls0 * featchnls1) ([] : Chan2))
         if dbl then
           let dblgradorient0 := (dblAngle gradorient0)
@@ -278,7 +278,7 @@ def genIgoRaw (mag : Rat → Rat → Rat) (nDims : Nat) (pixels : Px) (dbl : Boo
           .ok (igopixels0)
     else
       (((genGradient false (Arg.arr pixels)).bind Arg.arrE)).bind fun grad0 =>
-        let gradorient0 := (angleOf (List.take nimgchnls0 grad0) (List.drop nimgchnls0 grad0))
+        let gradorient0 := (angleC (Cplx.mk (List.take nimgchnls0 grad0) (List.drop nimgchnls0 grad0)))
         let igopixels0 := (List.replicate (nimgchnls0 * featchnls0) ([] : Chan2))
         if dbl then
           let dblgradorient0 := (dblAngle gradorient0)
@@ -305,7 +305,7 @@ def genEsRaw (mag : Rat → Rat → Rat) (nDims : Nat) (pixels : Px) : Except Er
     let nimgchnls0 := (List.length pixels)
     let featchannels0 := (2)
     (((genGradient false (Arg.arr pixels)).bind Arg.arrE)).bind fun grad0 =>
-      let gradabs0 := (absOf mag (List.take nimgchnls0 grad0) (List.drop nimgchnls0 grad0))
+      let gradabs0 := (absC mag (Cplx.mk (List.take nimgchnls0 grad0) (List.drop nimgchnls0 grad0)))
       let gradabs1 := (addScalar gradabs0 (medianPx gradabs0))
       let espixels0 := (List.replicate ((List.length pixels) * featchannels0) ([] : OChan2))
       let espixels1 := (setSlice espixels0 0 nimgchnls0 (divPx (List.take nimgchnls0 grad0) gradabs1))
